@@ -31,14 +31,16 @@ class Lang(object):
         seen = []
         for key in list(STRUCT.values()) + list(STEP_TYPES):
             for a in self.kws[key]:
-                a = a.rstrip() if key in STEP_TYPES else a
+                a = (a.rstrip() if key in STEP_TYPES else a).lower()
                 if a not in seen:
                     seen.append(a)
         self.aliases = seen
 
     def alias_id(self, text):
+        """aliases that differ only in case share an id: the parser matches step keywords case-insensitively and
+        reports the alias of its table, not the spelling of the file ('Sipoze Ke' -> 'Sipoze ke')"""
         try:
-            return self.aliases.index(text) + 1
+            return self.aliases.index(text.lower()) + 1
         except ValueError:
             return 0
 
@@ -65,10 +67,13 @@ class Lang(object):
             out.add("Doc")
         if s.startswith("|"):
             out.add("Row")
-        for t in STEP_TYPES:
-            for kw in self.kws[t]:
-                if s.startswith(kw) or s.lower().startswith(kw.lower()):
-                    out.add("Step:" + ("star" if kw.startswith("*") else t) + ":" + kw)
+        # Parser.parse_step: longer keywords first (stable), the first match wins
+        cands = [(kw, t) for t in STEP_TYPES for kw in self.kws[t]]
+        cands.sort(key=lambda item: -len(item[0]))
+        for kw, t in cands:
+            if s.startswith(kw) or s.lower().startswith(kw.lower()):
+                out.add("Step:" + ("star" if kw.startswith("*") else t) + ":" + kw)
+                break
         for c, key in STRUCT.items():
             for a in self.kws[key]:
                 if s.startswith(a + ":"):
